@@ -2,7 +2,12 @@
 C09  Concurrent installs/upgrades of one release cannot both proceed.
 Property theorems only (model: Helm/Model/Conc.lean; invariant: Helm/Lemmas/Conc.lean).
 
-Two layers:
+Three layers:
+ * for ANY number of concurrent operations, ANY interleaving and ANY well-formed initial history
+   (an invariant over the ledger and all processes, Helm/Lemmas/ConcQ.lean, by induction over
+   the schedule): at most one operation is ever between its Create and its final Update, and
+   once all have returned the history has unique revisions, at most one deployed revision and
+   nothing pending (`history_wellformed_at_quiescence`);
  * for ANY number of concurrent operations, ANY interleaving of their storage and cluster calls
    and ANY initial history (induction over the schedule): every revision record is created by
    exactly one operation, an operation that fails has touched no release resource and created
@@ -11,13 +16,15 @@ Two layers:
    preemption-bounded schedules of three, from an empty or a deployed history -- by exhaustive
    evaluation in the kernel: once all have returned the history is well-formed (unique
    revisions, at most one deployed, nothing pending).  This is a finite enumeration and is
-   labelled as such; the unbounded version of well-formedness at quiescence is not proved.
+   labelled as such; it is kept next to the unbounded theorem as an independent check of the
+   model's executable definitions.
 
 Freedom from data races is not a statement about this model: the correspondence runs the
 real drivers from several goroutines under the Go race detector (thorough tier) and is labelled
 as testing.
 -/
 import Helm.Lemmas.Conc
+import Helm.Lemmas.ConcQ
 
 namespace Helm.Props.C09
 open Helm.Ledger Helm.Conc
@@ -29,7 +36,7 @@ def Fresh (ps : List Proc) : Prop := ∀ p ∈ ps, p.pc = .start ∧ p.made = no
 created the same revision's record, and every record an operation claims is in the history. -/
 theorem each_revision_has_one_creator (l : Ledger) (ps : List Proc) (hf : Fresh ps) (schedule : List Nat) :
     ((run ⟨l, ps⟩ schedule).procs.filterMap (·.made)).Pairwise (· ≠ ·) ∧
-    ∀ p ∈ (run ⟨l, ps⟩ schedule).procs, ∀ r, p.made = some r → r ∈ revs (run ⟨l, ps⟩ schedule).ledger := by
+    ∀ p ∈ (run ⟨l, ps⟩ schedule).procs, ∀ r, p.made = some r → r ∈ Helm.Conc.revs (run ⟨l, ps⟩ schedule).ledger := by
   have h := run_inv ⟨l, ps⟩ schedule (init_inv l ps hf)
   exact ⟨h.2, fun p hp r hr => (h.1 p hp).1 r hr⟩
 
@@ -45,13 +52,38 @@ theorem losers_touch_nothing (l : Ledger) (ps : List Proc) (hf : Fresh ps) (sche
 
 /-- Release resources are touched only by an operation whose own revision record is stored. -/
 theorem mutation_only_after_own_record (l : Ledger) (ps : List Proc) (hf : Fresh ps) (schedule : List Nat) :
-    ∀ p ∈ (run ⟨l, ps⟩ schedule).procs, p.touched = true → ∃ r, p.made = some r ∧ r ∈ revs (run ⟨l, ps⟩ schedule).ledger := by
+    ∀ p ∈ (run ⟨l, ps⟩ schedule).procs, p.touched = true → ∃ r, p.made = some r ∧ r ∈ Helm.Conc.revs (run ⟨l, ps⟩ schedule).ledger := by
   intro p hp ht
   have h := (run_inv ⟨l, ps⟩ schedule (init_inv l ps hf)).1 p hp
   have := h.2.1 ht
   cases hm : p.made with
   | none => rw [hm] at this; cases this
   | some r => exact ⟨r, rfl, h.1 r hm⟩
+
+/-! ### well-formed history at quiescence, unbounded -/
+
+/-- ANY number of operations, ANY schedule, ANY well-formed initial history (unique revisions
+from 1, at most one deployed, nothing pending): once every operation has returned the history
+has unique revisions, at most one deployed revision and no pending revision. -/
+theorem history_wellformed_at_quiescence (l : Ledger) (ps : List Proc) (schedule : List Nat) (hl : WF0 l)
+    (hf : Fresh ps) (hdone : ∀ p ∈ (run ⟨l, ps⟩ schedule).procs, p.isDone = true) :
+    (Helm.Ledger.revs (run ⟨l, ps⟩ schedule).ledger).Nodup ∧
+    countDeployed (run ⟨l, ps⟩ schedule).ledger ≤ 1 ∧
+    ∀ rec ∈ (run ⟨l, ps⟩ schedule).ledger, rec.status.isPending = false :=
+  quiescence_wellformed l ps schedule hl (fun p hp => (hf p hp).1) hdone
+
+/-- At every moment of every execution at most one operation is between storing its own
+(pending) record and its final update: the pending check and the atomic create serialise them. -/
+theorem at_most_one_operation_in_flight (l : Ledger) (ps : List Proc) (schedule : List Nat) (hl : WF0 l)
+    (hf : Fresh ps) :
+    (run ⟨l, ps⟩ schedule).procs.Pairwise (fun p q => inflight p = none ∨ inflight q = none) :=
+  at_most_one_in_flight l ps schedule hl (fun p hp => (hf p hp).1)
+
+/-- the four histories of the exhaustive check below are well-formed initial histories -/
+example : WF0 [] ∧ WF0 [⟨1, .deployed, 1⟩] ∧ WF0 [⟨1, .superseded, 1⟩, ⟨2, .deployed, 2⟩] ∧
+    WF0 [⟨1, .deployed, 1⟩, ⟨2, .failed, 2⟩] := by
+  refine ⟨⟨by decide, by decide, by decide, by decide⟩, ⟨by decide, by decide, by decide, by decide⟩,
+    ⟨by decide, by decide, by decide, by decide⟩, ⟨by decide, by decide, by decide, by decide⟩⟩
 
 /-! ### the property's quantifier, exhaustively -/
 
